@@ -48,3 +48,17 @@ Proof. exact (fun map c => conj (src_hash_count_get map c) (src_skip_count_get m
 Example C17_src_example :
   create_order (qb_hashtable_create 400 100 0 1 2 3 4 5 6 7 8 9 10 0 0 0 0 0 0 0 0 0 0 0 0 0 (fun _ => 4096)) = Some (0, 128, 7).
 Proof. exact src_create_example. Qed.
+
+(* skiplist_level_generate: the level is the number of leading random() answers with (uint16_t)r < P_CEIL, capped at
+   SKIPLIST_LEVEL_MAX - exactly the model's new_level on the answers the call consumed (good ++ [bad]); answers are
+   long values in [0, 2^63), fewer than 128 passing answers in a row (no int8_t wrap of the level counter) *)
+Theorem C17_src_skiplist_level_generate : forall good bad fuel orc cnt,
+  (forall i, (i < length good)%nat -> orc (cnt + Z.of_nat i) = nth i good 0) -> orc (cnt + Z.of_nat (length good)) = bad ->
+  Forall (fun r => 0 <= r < 2 ^ 63 /\ lvl_cond r = true) good -> 0 <= bad < 2 ^ 63 -> lvl_cond bad = false ->
+  (length good < 128)%nat -> (length good < fuel)%nat ->
+  skiplist_level_generate fuel cnt orc = Some (Z.of_nat (new_level (good ++ (bad :: nil))), cnt + Z.of_nat (length (good ++ (bad :: nil)))).
+Proof. exact src_skiplist_level_generate. Qed.
+Print Assumptions C17_src_skiplist_level_generate.
+
+Example C17_src_level_example : skiplist_level_generate 10 0 (fun k => if k <? 3 then 5 else 65535) = Some (3, 4).
+Proof. exact src_level_example. Qed.
